@@ -139,6 +139,8 @@ def _main(args):
             if not fn.endswith(".json"):
                 continue
             c = core.load_replay(os.path.join(cdir, fn))
+            if c.get("kind") in ("pure", "chunk"):
+                continue      # not a single replayable history
             r = core.run_trace(mcls, c["config"], c["trace"], known=known)
             corpus_n += 1
             if r.violation is not None:
